@@ -103,17 +103,21 @@ func removeWalFilesUpTo(walPath string) error {
 	}
 
 	for _, entry := range entries {
-		if entry.IsDir() || filepath.Ext(entry.Name()) != filepath.Ext(lastName) || entry.Name() > lastName {
+		// only the numbered siblings of the rotated file are ours: same extension, same length, sorting before it.
+		// Anything else in that directory is left alone.
+		name := entry.Name()
+		if entry.IsDir() || filepath.Ext(lastName) == "" || filepath.Ext(name) != filepath.Ext(lastName) ||
+			len(name) != len(lastName) || name >= lastName {
 			continue
 		}
 
-		err = os.Remove(filepath.Join(walDir, entry.Name()))
+		err = os.Remove(filepath.Join(walDir, name))
 		if err != nil {
 			return err
 		}
 	}
 
-	return nil
+	return os.Remove(walPath)
 }
 
 func (db *DB) rotateWalAndFlushMemstore() error {
